@@ -234,6 +234,7 @@ func c05Sched(c *core.Ctx) {
 				}
 			}
 			orders[fmt.Sprint(arrival)] = true
+			c.Tag(fmt.Sprintf("interleaving:%x", core.HashStr(model+fmt.Sprint(arrival))&0xffffff))
 		}
 	}
 	c.Count("distinct_arrival_orders", float64(len(orders)))
